@@ -201,6 +201,58 @@ def execute(acc, case):
     acc.sample({"case": case, "requests": wit.get("requests", [])[:6]}, limit=3)
 
 
+def twin_case(acc, case):
+    """Two node objects with the same local identity in one process (one client identity, two servers).  Node A's state-machine
+    thread is parked at the k-th line of its DWR handling while node B answers a DWR of its own: each connection's DWA must
+    still carry its own request's identifiers."""
+    rng = random.Random(case["seed"])
+    sc = N.Scenario(seed=case["seed"], strategy="rw", p=0.02, role="client", apps=[16777251], lines=True, max_steps=600_000, wall_s=90)
+    wit = {"case": case}
+    with sc:
+        try:
+            if not sc.open():
+                acc.inconclusive.append("node A did not open (%r)" % (case,))
+                return
+            tw = N.Scenario.twin_of(sc)
+            if not tw.open():
+                acc.inconclusive.append("node B did not open (%r)" % (case,))
+                return
+            sc.read_emitted(); tw.read_emitted()
+            psm_a = [t for t in sc.sched.tasks if t.name.endswith("_psm_thread")][0]
+            ha, ea, hb, eb = rng.randrange(1, 2 ** 32), rng.randrange(1, 2 ** 32), rng.randrange(1, 2 ** 32), rng.randrange(1, 2 ** 32)
+            funcs = {"event_open_rcv_dwr", "create_answer", "send_message", "put_message_into_send_queue", "send_message_from_queue",
+                     "is_valid_device_watchdog", "run", "get_message", "_set_selector_events_mask"}
+            sc.sched.parks.append({"task": psm_a, "nth": case["park"], "funcs": funcs, "timeout": 0.05,
+                                   "release": lambda: any(N.name_of(m) == "DWA" for m in (tw.read_emitted() or tw.emitted_msgs))})
+            sc.inject(R.encode(N.dwr(hbh=ha, e2e=ea)))
+            sc.sched.run_until(lambda: psm_a.why == "parked" or any(N.name_of(m) == "DWA" for m in (sc.read_emitted() or sc.emitted_msgs)), 0.5, "A-parks")
+            tw.inject(R.encode(N.dwr(hbh=hb, e2e=eb)))
+            sc.sched.run_until(lambda: any(N.name_of(m) == "DWA" for m in (sc.read_emitted() or sc.emitted_msgs)) and
+                               any(N.name_of(m) == "DWA" for m in (tw.read_emitted() or tw.emitted_msgs)), 2.0, "both-answer")
+            acc.counters["twin_node_executions"] += 1
+            if sc.sched.parked_at:
+                acc.counters["twin_node_parked"] += 1
+            ga = [(N.name_of(m), m.hbh, m.e2e) for m in sc.emitted_msgs if N.name_of(m) == "DWA"]
+            gb = [(N.name_of(m), m.hbh, m.e2e) for m in tw.emitted_msgs if N.name_of(m) == "DWA"]
+            wit.update({"A": ga, "B": gb, "want_A": (ha, ea), "want_B": (hb, eb), "parked_at": sc.sched.parked_at[:1], "deaths": sc.sched.deaths})
+            if sc.sched.deaths:
+                d = sc.sched.deaths[0]
+                acc.violation("task-died:%s:%s" % (d["task"], d["type"]), "%s died: %s" % (d["task"], d["traceback"][-300:]), wit)
+            elif ga != [("DWA", ha, ea)] or gb != [("DWA", hb, eb)]:
+                acc.violation("base-answer-carries-wrong-identifiers", "two nodes with one local identity: connection A wrote %s for DWR (%d, %d), connection B wrote %s for DWR (%d, %d)" % (
+                    ga, ha, ea, gb, hb, eb), wit)
+            else:
+                acc.counters["answers_seen"] += 2
+        except vsched.DeadlockError as ex:
+            acc.violation("deadlock", "deadlock: %s" % ex, dict(wit, stacks=sc.sched.stacks()))
+        except vsched.WallClock as ex:
+            acc.inconclusive.append("%s (case %r)" % (ex, case))
+        except vsched.StepBudget as ex:
+            acc.violation("spin", "%s; %s" % (ex, sc.sched.blocked_report()), wit)
+    acc.evaluations += 1
+    acc.sigs.add(harness.sig_hash("twin/%d" % case["park"]))
+
+
 def run_batch(b):
     acc = harness.Acc()
     if b.get("real"):
@@ -208,7 +260,10 @@ def run_batch(b):
         realnet.run_cases(acc, b["real"])
         return acc
     for case in b["cases"]:
-        execute(acc, case)
+        if case.get("twin"):
+            twin_case(acc, case)
+        else:
+            execute(acc, case)
     return acc
 
 
@@ -224,18 +279,22 @@ def main(tier, seed):
     for i in range(24 if q else 2000):
         cases.append({"seed": seed * 1013 + i, "role": rng.choice(["client", "server"]), "n": rng.choice([2, 3, 5]), "back_to_back": True,
                       "strategy": rng.choice(["rr", "rw"]), "p": 0.05, "rounds": 1, "flood": 0, "backlog": rng.choice([12, 24])})
+    for k in range(0, 70, 2 if q else 1):
+        cases.append({"twin": True, "seed": seed * 331 + k, "park": k})
     nb = 16 if q else 64
     batches = [{"cases": cases[i::nb]} for i in range(nb)]
     # real loopback (bvm/realnet.py): bursts of DWR/CER/DPR with boundary identifiers, two connections of the same object
     for i in range(4 if q else 16):
         batches.append({"real": [{"kind": "base", "seed": seed * 613 + i * 17 + j, "role": ("client", "server")[(i + j) % 2]} for j in range(1 if q else 5)]})
+    for i in range(1 if q else 8):
+        batches.append({"real": [{"kind": "twins", "seed": seed * 617 + i}]})
     acc = harness.run_workers("checks.c07_base_answers", "run_batch", batches, 3400)
     harness.require_vnet_fidelity(acc)
     return harness.finish(PROP, tier, seed, "exploration", acc, RULE,
                           ["the peer is scripted by the driver task; answers are read from the bytes the node wrote to the substituted socket",
                            "identifier pairs are sampled (boundary + random), not enumerated over 2^64",
                            "emission order is decided on scheduler steps: the send() that carried the answer's last byte vs the step at which the state machine took the next inbound message"],
-                          t0, require_counters=("answers_seen", "connections", "reconnects", "ordering_checked", "backlog_cases", "real_loopback_ok", "stray_base_answers_injected"))
+                          t0, require_counters=("answers_seen", "connections", "reconnects", "ordering_checked", "backlog_cases", "real_loopback_ok", "stray_base_answers_injected", "twin_node_executions", "twin_node_parked"))
 
 
 def replay(w):
